@@ -27,7 +27,7 @@ func init() {
 		Check:      check,
 		NonTrivial: nonTrivial,
 		Rule: "op sequences on up to 4 registers (setz.Bits, setz.Bitmap, dsz.Bits) over values 0..260 (+boundaries 63/64/65/127/128…, rare huge values for Contains/Remove): add/remove/contains/grow/len/cap/clone, diff/intersect/merge between registers of any two word lengths (incl. self), resumable iterators interleaved with mutations, Range/All with early stop, `layout` (word counts and overlapping backing arrays of the private word slices, read by reflection, compared with the one-memory model); " +
-			"stream `large` (≈ 0.7 % of the cases): registers of 7…65 words (multiples of 8 and ±1; up to 1096 words = values up to 70000 in a smaller share) filled completely / all but one / with ~1000 strided elements / only in the last block by the bulk element ops addn/removen, then Diff/Intersect/Merge between them with Len/blen/Cap before and after, iterators, Range/All with early stop, Contains at the edges, Clone + layout; String() of all three types; " +
+			"stream `large` (≈ 0.7 % of the cases): registers of 7…65 words (multiples of 8 and ±1; up to 1096 words = values up to 70000 in a smaller share) filled completely / all but one / with ~1000 strided elements / only in the last block by the bulk element ops addn/removen, then Diff/Intersect/Merge between them with Len/blen/Cap before and after, iterators, Range/All with early stop, Contains at the edges, Clone + layout; String() of all three types; `reseq`: one All() value ranged with an early stop, Add(n), the same value ranged again; " +
 			"non-trivial = at least one bulk operation, or an enumeration (iterator / Range / All) that crosses a word boundary, in a sequence of ≥ 6 ops; distinct by hash of the op list",
 		Classify: classify,
 		Parallel: true,
@@ -252,6 +252,29 @@ func impl(c core.Case) []string {
 					return "ok"
 				}
 				return "bad-op"
+			case "reseq": // one All() value: ranged (stop a), Add(n), the SAME value ranged again (stop b)
+				if len(t) != 5 {
+					return "bad-op"
+				}
+				r := getReg(t[1])
+				a, e1 := strconv.ParseInt(t[2], 10, 64)
+				n64, e2 := strconv.ParseUint(t[3], 10, 32)
+				b, e3 := strconv.ParseInt(t[4], 10, 64)
+				if r == nil || r.kind != "bits" || e1 != nil || e2 != nil || e3 != nil {
+					return "bad-op"
+				}
+				seq := r.bits.All()
+				collect := func(stop int64) string {
+					var vs []uint
+					seq(func(v uint) bool {
+						vs = append(vs, v)
+						return !(stop >= 0 && uint64(v) == uint64(stop))
+					})
+					return showUints(vs)
+				}
+				l1 := collect(a)
+				fl := strconv.FormatBool(r.bits.Add(uint(n64)))
+				return l1 + " ; " + fl + " ; " + collect(b)
 			case "string":
 				if len(t) != 2 {
 					return "bad-op"
@@ -782,6 +805,14 @@ func gen(r *core.Rand, tier string) core.Case {
 			if r.Chance(50) {
 				stop = genVal(r, pool)
 			}
+			if op == "all" && r.Chance(35) {
+				stop2 := -1
+				if r.Chance(30) {
+					stop2 = genHit(r, pool)
+				}
+				emit("reseq %d %d %d %d", x, stop, genVal(r, pool), stop2)
+				continue
+			}
 			emit("%s %d %d", op, x, stop)
 		}
 	}
@@ -1093,6 +1124,32 @@ func check(c core.Case, out []string) *core.Failure {
 			if want := show64(sets[ri].sorted()); o != want {
 				return fail("iter", want)
 			}
+		case "reseq":
+			stopA, _ := strconv.ParseInt(t[2], 10, 64)
+			n, _ := strconv.ParseUint(t[3], 10, 64)
+			stopB, _ := strconv.ParseInt(t[4], 10, 64)
+			upto := func(stop int64) string {
+				var w []uint64
+				for _, m := range sets[ri].sorted() {
+					w = append(w, m)
+					if stop >= 0 && m == uint64(stop) {
+						break
+					}
+				}
+				return show64(w)
+			}
+			want := upto(stopA) + " ; " + strconv.FormatBool(!sets[ri][n])
+			if !sets[ri][n] {
+				touch(ri)
+			}
+			sets[ri][n] = true
+			if int(n)+1 > minCap[ri] {
+				minCap[ri] = int(n) + 1
+			}
+			want += " ; " + upto(stopB)
+			if o != want {
+				return fail("seq-reuse", want+" (a Seq value ranged again enumerates the current content)")
+			}
 		case "string":
 			want := "{" + strings.Trim(show64(sets[ri].sorted()), "[]") + "}"
 			if kinds[ri] == "dsz" {
@@ -1165,7 +1222,127 @@ func nonTrivial(c core.Case, out []string) bool {
 	return false
 }
 
+// historyLabels replays the case on plain sets and reports the histories in which sharing or stale
+// words would show: a bulk operation with an EMPTY operand / receiver, followed by Grow/Add inside
+// the old allocation or by element operations on either operand.
+func historyLabels(c core.Case, out []string) []string {
+	kinds := core.Toks(c.Lines[0])[2:]
+	nr := len(kinds)
+	sets := make([]map[uint64]bool, nr)
+	words := make([]int, nr)      // current word count
+	cutFrom := make([]int, nr)    // word count before an Intersect with an empty operand (0 = none pending)
+	mergedInto := make([]int, nr) // receiver r was empty when `merge r b` ran: b+1 (0 = none)
+	for i := range sets {
+		sets[i] = map[uint64]bool{}
+	}
+	var ls []string
+	for i, l := range c.Lines[1:] {
+		t := core.Toks(l)
+		o := out[i+1]
+		if o == "bad-op" || o == "dead" || o == "panic" || len(t) < 2 {
+			continue
+		}
+		r, err := strconv.Atoi(t[1])
+		if err != nil || r < 0 || r >= nr {
+			continue
+		}
+		elem := func(op string, n uint64) {
+			w := int(n/64) + 1
+			if op == "add" || op == "grow" {
+				if cutFrom[r] > 0 && w <= cutFrom[r] {
+					ls = append(ls, op+" inside the old allocation after intersect with an EMPTY operand")
+					cutFrom[r] = 0
+				}
+				if w > words[r] {
+					words[r] = w
+				}
+			}
+			if op != "grow" {
+				if mergedInto[r] > 0 {
+					ls = append(ls, op+" on the receiver after merge into an EMPTY receiver")
+				}
+				for a := range mergedInto {
+					if mergedInto[a] == r+1 && a != r {
+						ls = append(ls, op+" on the other operand after merge into an EMPTY receiver")
+					}
+				}
+			}
+			switch op {
+			case "add":
+				sets[r][n] = true
+			case "remove":
+				delete(sets[r], n)
+			}
+		}
+		switch t[0] {
+		case "reseq":
+			n, _ := strconv.ParseUint(t[3], 10, 64)
+			elem("add", n)
+		case "add", "remove", "grow":
+			n, _ := strconv.ParseUint(t[2], 10, 64)
+			elem(t[0], n)
+		case "addn", "removen":
+			a, _ := strconv.ParseUint(t[2], 10, 32)
+			d, _ := strconv.ParseUint(t[3], 10, 32)
+			cnt, _ := strconv.ParseUint(t[4], 10, 32)
+			for j := uint64(0); j < cnt; j++ {
+				elem(strings.TrimSuffix(t[0], "n"), a+j*d)
+			}
+		case "clone":
+			b, _ := strconv.Atoi(t[2])
+			n := map[uint64]bool{}
+			for k := range sets[b] {
+				n[k] = true
+			}
+			sets[r], words[r], cutFrom[r], mergedInto[r] = n, words[b], 0, 0
+		case "diff", "intersect", "merge":
+			b, _ := strconv.Atoi(t[2])
+			if b < 0 || b >= nr || b == r {
+				continue
+			}
+			if len(sets[b]) == 0 {
+				ls = append(ls, t[0]+" with an EMPTY other operand ("+kinds[r]+")")
+			}
+			if len(sets[r]) == 0 {
+				ls = append(ls, t[0]+" into an EMPTY receiver ("+kinds[r]+")")
+			}
+			switch t[0] {
+			case "diff":
+				for k := range sets[b] {
+					delete(sets[r], k)
+				}
+			case "intersect":
+				if len(sets[b]) == 0 && len(sets[r]) > 0 {
+					cutFrom[r] = words[r]
+				}
+				for k := range sets[r] {
+					if !sets[b][k] {
+						delete(sets[r], k)
+					}
+				}
+			default:
+				if len(sets[r]) == 0 && words[r] <= words[b] && len(sets[b]) > 0 {
+					mergedInto[r] = b + 1
+				}
+				for k := range sets[b] {
+					sets[r][k] = true
+				}
+				if words[b] > words[r] {
+					words[r] = words[b]
+				}
+			}
+		}
+	}
+	return ls
+}
+
 func classify(c core.Case, out []string) []string {
+	ls0 := historyLabels(c, out)
+	ls1 := classify1(c, out)
+	return append(ls1, ls0...)
+}
+
+func classify1(c core.Case, out []string) []string {
 	kinds := core.Toks(c.Lines[0])[2:]
 	wl := make([]int, len(kinds)) // word lengths, tracked from the ops
 	var ls []string
@@ -1294,6 +1471,12 @@ func classify(c core.Case, out []string) []string {
 				ls = append(ls, "iterator-crosses-word")
 			}
 			lastNextVal[r] = v
+		case "reseq":
+			ls = append(ls, "All() value ranged twice with an Add in between")
+			if n, _ := strconv.Atoi(t[3]); n/64+1 > wl[r] {
+				wl[r] = n/64 + 1
+				ls = append(ls, "All() value re-ranged after the words grew")
+			}
 		case "string":
 			ls = append(ls, "string "+kinds[r])
 		case "iterall":
